@@ -817,8 +817,30 @@ def _gen_random_case(rng) -> Tuple[Dict[str, Any], Any]:
         else:
             m = rng.choice((5, 6, 7, 9))
             doc = {f"k{i}": (i if rng.random() < 0.6 else [i]) for i in range(1, m + 1)}
-    elif shape < 0.9:
+    elif shape < 0.85:
         doc = D.random_tree(rng, max_nodes=rng.choice((16, 24, 40)), max_depth=5, p_dict=0.5, max_width=3)
+    elif shape < 0.88:
+        # MANY runs waiting at once (33..80 container children of the root), each child an array of
+        # arrays of arrays: whatever an evaluator does differently "when the frontier is large"
+        # meets arrays whose elements must still come in index order
+        n = rng.choice((33, 40, 64, 65, 80))
+
+        def nest(i: int, d: int) -> Any:
+            if d == 0:
+                return [i, rng.choice(("x", "y", "z"))]
+            return [nest(i, d - 1) for _ in range(rng.choice((2, 2, 3)))] + ([i] if rng.random() < 0.5 else [])
+
+        kids = [nest(i, rng.choice((1, 2, 2))) for i in range(n)]
+        doc = {f"m{i:02d}": k for i, k in enumerate(kids)} if rng.random() < 0.6 else kids
+    elif shape < 0.9:
+        # LONG arrays (65..300 elements) that are mostly scalars, with a few containers at the ends,
+        # in the middle or after a long stretch of scalars (what "process an array in blocks" meets)
+        n = rng.choice((65, 70, 128, 129, 150, 200, 300))
+        arr: List[Any] = [rng.randint(0, 9) for _ in range(n)]
+        for pos in set([0, n - 1] if rng.random() < 0.6 else [n - 1]) | {rng.randrange(n) for _ in range(rng.choice((0, 1, 3)))}:
+            arr[pos] = rng.choice(({"a": pos, "b": [pos]}, [pos, {"a": pos}], {"a": {"b": pos}}, [[pos]]))
+        kind = rng.random()
+        doc = arr if kind < 0.5 else {"a": arr, "b": {"a": 1}} if kind < 0.8 else [arr, {"a": arr[:70]}]
     else:
         # big: beyond any enumeration -- judged by the multiset and the structural check
         doc = D.random_tree(rng, max_nodes=rng.choice((80, 150, 300)), max_depth=rng.choice((4, 6, 8)), p_dict=rng.choice((0.3, 0.6)), max_width=rng.choice((5, 7, 9)), keys=("a", "b", "c", "d", "e", "f", "g", "h", "i"))
